@@ -526,3 +526,99 @@ def step (s : IOState) : List String → IOState × String
   | _ => (s, "bad-op")
 
 end VecProto
+
+/-! ## The worker's error path (section WorkerErr): what `_async_worker` does when the sub-environment raises
+
+  `except (KeyboardInterrupt, Exception):` builds a report, hands it to the error queue, flushes the queue, announces
+  the failure on the pipe with `(None, False)`; `finally:` closes the sub-environment.  The parent's
+  `_raise_if_errors` does one `error_queue.get()` per announced failure.
+
+  The multiprocessing queue is modelled explicitly (assumption A10, the documented behaviour of
+  `multiprocessing.Queue`): `put` hands the item to the buffer of a feeder thread of the worker process; the item can
+  be read by the parent only after the feeder has written it to the queue's pipe (a *flush*); `join_thread()` after
+  `close()` returns only when everything buffered has been flushed; without it the feeder flushes at an arbitrary
+  later point as long as the process lives (`spont`); a process that dies (SIGKILL, `os._exit`, a sub-environment
+  `close()` that takes the process down) discards whatever is still buffered.  What has been flushed, and what has
+  been sent on the pipe, survives the death of the process (A3).  `put` on a closed queue raises (nothing is
+  buffered); `join_thread()` on a queue that is not closed guarantees nothing.
+  A kill point `k` = the process dies after its `k`-th effect (0 = before the first; `k ≥` the number of effects =
+  the worker finishes): this covers a death at any point after the announcement, including inside `env.close()`. -/
+namespace VecProto
+
+/-- class of the report the worker puts on the queue: the sub-environment's own class, or `RuntimeError` -/
+inductive RCls | own | runtimeError
+deriving DecidableEq, Repr
+
+/-- message of the report: the exception object itself, `str(exception)`, or `f"{class name}: {exception}"` -/
+inductive RMsg | own | strOfOwn | nameColonOwn
+deriving DecidableEq, Repr
+
+/-- `(index, cls, msg, trace)`: index (an int) and trace (a str) always survive pickling -/
+structure Report where
+  cls : RCls
+  msg : RMsg
+deriving DecidableEq, Repr
+
+/-- the effects of the worker's error path -/
+inductive WEff
+  | put (r : Report) | qclose | qjoin | announce | envClose
+deriving DecidableEq, Repr
+
+/-- the downgrade decision: first on the CLASS (`clsOk` = the class survives pickling), then on the message -/
+def Worker.report (clsOk msgOk : Bool) : Report :=
+  if !clsOk then ⟨.runtimeError, .nameColonOwn⟩
+  else if !msgOk then ⟨.own, .strOfOwn⟩
+  else ⟨.own, .own⟩
+
+/-- does the report survive pickling, given what survives of the original exception -/
+def Report.picklable (clsOk msgOk : Bool) (r : Report) : Bool :=
+  (match r.cls with | .own => clsOk | .runtimeError => true) &&
+  (match r.msg with | .own => msgOk | .strOfOwn => true | .nameColonOwn => true)
+
+/-- /repo HEAD: report, flush, announce; then the `finally` block -/
+def Worker.errorPath (clsOk msgOk : Bool) : List WEff :=
+  [.put (Worker.report clsOk msgOk), .qclose, .qjoin, .announce, .envClose]
+
+/-- the order as found (before fixes/C13-error-report-lost-when-killed-in-cleanup): no flush -/
+def Worker.errorPathAsFound (clsOk msgOk : Bool) : List WEff :=
+  [.put (Worker.report clsOk msgOk), .announce, .envClose]
+
+/-- the worker process seen from outside: reports in the feeder's buffer, reports flushed to the queue's pipe,
+    failures announced on the worker's pipe -/
+structure PSt where
+  buffered : Nat := 0
+  flushed : Nat := 0
+  announced : Nat := 0
+  qclosed : Bool := false
+  envClosed : Bool := false
+deriving DecidableEq, Repr
+
+/-- the feeder thread writes everything buffered to the queue's pipe -/
+def PSt.flush (s : PSt) : PSt := { s with flushed := s.flushed + s.buffered, buffered := 0 }
+
+def PSt.exec (s : PSt) : WEff → PSt
+  | .put _ => if s.qclosed then s else { s with buffered := s.buffered + 1 }
+  | .qclose => { s with qclosed := true }
+  | .qjoin => if s.qclosed then s.flush else s
+  | .announce => { s with announced := s.announced + 1 }
+  | .envClose => { s with envClosed := true }
+
+/-- run the first `k` effects; `spont i = true`: the feeder thread happened to flush right after effect `i` -/
+def PSt.runK (spont : Nat → Bool) : Nat → Nat → PSt → List WEff → PSt
+  | _, 0, s, _ => s
+  | _, _ + 1, s, [] => s
+  | i, k + 1, s, e :: es =>
+    PSt.runK spont (i + 1) k (if spont i then (s.exec e).flush else s.exec e) es
+
+/-- the process dies: the feeder's buffer is gone -/
+def PSt.die (s : PSt) : PSt := { s with buffered := 0 }
+
+/-- `_raise_if_errors`: one `error_queue.get()` per announced failure; each returns iff a report has reached the
+    queue's pipe (A5: `get()` on an empty queue of a dead worker blocks forever) -/
+def PSt.parentFinds (s : PSt) : Bool := decide (s.announced ≤ s.flushed)
+
+/-- the worker process is killed after `k` effects of `effs` (feeder schedule `spont`); what the parent is left with -/
+def Worker.killedAt (spont : Nat → Bool) (k : Nat) (effs : List WEff) : PSt :=
+  (PSt.runK spont 0 k {} effs).die
+
+end VecProto
